@@ -1,8 +1,8 @@
 (* C12 - intersection queries are exact for segments. *)
 From Coq Require Import QArith Qabs.
 From Coq Require Import List Sorted.
-From LV Require Import Base.Prelude Model.Bezier Model.LineInter Model.QuadLine Proofs.C12_LineInter Proofs.C12_QuadLine
-  Gen.Functions Proofs.Gen_Geom Proofs.Gen_GeomProps.
+From LV Require Import Base.Prelude Model.Bezier Model.LineInter Model.QuadLine Model.Triangle Proofs.C12_LineInter Proofs.C12_QuadLine
+  Proofs.C12_Triangle Gen.Functions Proofs.Gen_Geom Proofs.Gen_GeomProps.
 Open Scope Q_scope.
 
 (* the returned parameters locate a common point on both segments, which are then
@@ -102,6 +102,31 @@ Example C12_quad_line_example :
   /\ q_line_intersections_t_pinned (fun _ => 1) (mkQuad (0,0) (1#2,1) (1,0)) 1 0 (-(1#2)) = [].
 Proof. exact q_line_fixed_example. Qed.
 
+(* ---- Triangle::contains_point (Model/Triangle.v; the functions of triangle.rs are also regenerated from the source and
+   proved equal to the model): strict interiority for every non-degenerate triangle of either orientation, nothing for a
+   degenerate one (where the code divides by zero), vertices and edge lines excluded, independent of the vertex order *)
+Theorem C12_triangle_is_source : forall t p s,
+  src_tri_get_barycentric_coords_for_point t p = tri_bary t p /\ src_tri_contains_point t p = tri_contains_point t p /\
+  src_tri_intersects_line_segment t s = tri_intersects_line_segment t s /\ src_line_intersects (tri_ab t) s = seg_intersects (tri_ab t) s.
+Proof. intros t p s. repeat split; reflexivity. Qed.
+
+Theorem C12_triangle_contains_spec : forall t p, ~ tri_det t == 0 ->
+  (tri_contains_point t p = true <-> strictly_inside t p).
+Proof. exact tri_contains_spec. Qed.
+
+Theorem C12_triangle_degenerate_contains_nothing : forall t p, tri_det t == 0 -> tri_contains_point t p = false.
+Proof. exact tri_degenerate_contains_nothing. Qed.
+
+Theorem C12_triangle_boundary_not_contained : forall t s, 0 <= s -> s <= 1 ->
+  tri_contains_point t (tri_point t s 0) = false /\ tri_contains_point t (tri_point t 0 s) = false
+  /\ tri_contains_point t (tri_point t s (1 - s)) = false.
+Proof. exact tri_edge_points_not_contained. Qed.
+
+Theorem C12_triangle_vertex_order : forall a b c p,
+  tri_contains_point (mkTri a c b) p = tri_contains_point (mkTri a b c) p /\
+  tri_contains_point (mkTri b c a) p = tri_contains_point (mkTri a b c) p.
+Proof. intros a b c p. split; [exact (tri_contains_swap a b c p)|exact (tri_contains_rotate a b c p)]. Qed.
+
 Print Assumptions C12_inter_sound.
 Print Assumptions C12_inter_complete.
 Print Assumptions C12_inter_unique.
@@ -117,3 +142,8 @@ Print Assumptions C12_quad_line_sound.
 Print Assumptions C12_quad_line_complete.
 Print Assumptions C12_quad_line_sorted.
 Print Assumptions C12_quad_line_pinned_refuted.
+Print Assumptions C12_triangle_is_source.
+Print Assumptions C12_triangle_contains_spec.
+Print Assumptions C12_triangle_degenerate_contains_nothing.
+Print Assumptions C12_triangle_boundary_not_contained.
+Print Assumptions C12_triangle_vertex_order.
